@@ -52,7 +52,7 @@ func runC16Arith(tier string, seed uint64, idx int) core.Result {
 	rng := core.CaseSeed(seed, "C16.arith", idx)
 	h, err := newSeqHarness("C16", r, rng, false)
 	if err != nil {
-		r.Inconclusive(err.Error())
+		r.Violate("C16/node-cannot-start", "a fresh RF=1 node cannot become leader: "+scrub(err.Error()), nil)
 		return r.Done()
 	}
 	defer h.Close()
@@ -183,7 +183,7 @@ func runC16Subscribe(tier string, seed uint64, idx int) core.Result {
 	rng := core.CaseSeed(seed, "C16.subscribe", idx)
 	h, err := newSeqHarness("C16", r, rng, false)
 	if err != nil {
-		r.Inconclusive(err.Error())
+		r.Violate("C16/node-cannot-start", "a fresh RF=1 node cannot become leader: "+scrub(err.Error()), nil)
 		return r.Done()
 	}
 	defer h.Close()
